@@ -52,6 +52,68 @@ def report(ctx, g, env, inp, mode, entry):
     ctx.violation(key, what, {"kind": "outcome", "grammar": g, "env": env, "input": inp, "mode": mode, "entry": entry})
 
 
+def sequence_oracle(ctx):
+    """the recursion memo's key has no input string: every entry point must start from an empty memo.  With left recursion enabled
+    ONCE, a second call (scan_string / search_string / transform_string / split / parse_string) on a DIFFERENT text with the same
+    grammar object must answer what it answers as the first call."""
+    import pyparsing as pp
+    from tools.harness import build
+    from tools.props.c04 import guarded
+    rng = ctx.rng
+    envs = [gen.ENV0, gen.ENV_EXPR, {0: ("mf", ("and", ("fwd", 0), ("lit", ","), ("word", "ab")), ("word", "ab"))}]
+    n = 60 if not ctx.thorough else 600
+    calls = [("scan_string", lambda e, t: [(r.as_list(), a, b) for r, a, b in e.scan_string(t)]),
+             ("search_string", lambda e, t: e.search_string(t).as_list()),
+             ("transform_string", lambda e, t: e.copy().add_parse_action(lambda toks: "<%s>" % "".join(map(str, toks.as_list()))).transform_string(t)
+              if False else e.transform_string(t)),
+             ("split", lambda e, t: list(e.split(t))), ("parse_string", lambda e, t: e.parse_string(t).as_list())]
+
+    def obs(f):
+        try:
+            return ("ok", f())
+        except pp.ParseBaseException as x:
+            return ("err", type(x).__name__, x.loc)
+        except RecursionError:
+            return ("div",)
+    done = 0
+    for i in range(n):
+        env = envs[i % len(envs)]
+        g = ("fwd", 0) if i % 2 == 0 else shared_forward_grammar(rng)
+        t1 = gen.sample_input(rng, g, env)
+        t2 = " ; ".join(gen.sample_input(rng, g, env) for _ in range(rng.randint(1, 3)))
+        if t1 == t2:
+            continue
+        for cap in (None, 1, 4):
+            def run():
+                e = build.Builder(env).build_all(g)
+                pp.ParserElement.disable_memoization()
+                pp.ParserElement.enable_left_recursion(cap)
+                try:
+                    out = []
+                    for name, f in calls:
+                        fresh = obs(lambda: f(e, t2))                  # first use after an entry point that reset everything
+                        obs(lambda: e.parse_string(t1))                # memoizes entries for t1 ...
+                        out.append((name, fresh, obs(lambda: f(e, t2))))   # ... which the next entry point must not see
+                    return out
+                finally:
+                    pp.ParserElement.disable_memoization()
+            try:
+                res = guarded(run, 3.0)
+            except build.Unbuildable:
+                continue
+            if res == ("timeout",):
+                continue
+            done += 1
+            ctx.case("sequence:%r|%r|%r|%r" % (g, t1, t2, cap), nontrivial=len(t2) >= 3, agreed=True)
+            for name, fresh, after in res:
+                if fresh != after:
+                    ctx.violation("sequence:%s|%r|%r|%r|%r" % (name, g, t1, t2, cap),
+                                  "enable_left_recursion(%r): %s(%r) on %r (env %r) answers %r as a first call but %r after parse_string(%r) on the same object" % (
+                                      cap, name, t2, g, env, fresh, after, t1), {"kind": "sequence", "grammar": g, "env": env, "t1": t1, "t2": t2, "cap": cap})
+                    break
+    ctx.stat("sequence_cases", done)
+
+
 def correspond(ctx):
     corr.ensure_driver()
     rng = ctx.rng
@@ -109,6 +171,7 @@ def correspond(ctx):
                 except Exception:
                     g, env, inp = r["g"], r["env"], r["inp"]
                 report(ctx, g, env, inp, mode, r["entry"])
+    sequence_oracle(ctx)
     ctx.sample({"grammar": groups[-1][0], "env": groups[-1][1], "inputs": groups[-1][2], "modes": MODES})
 
 
@@ -152,5 +215,12 @@ def replay(ctx, obj):
         print("off:", corr.proj_all(a["real"]))
         print("on :", corr.proj_all(b["real"]))
         return corr.proj_all(a["real"]) == corr.proj_all(b["real"])
+    if r.get("kind") == "sequence":
+        c2 = vlib.Ctx(PROP, "quick", ctx.seed)
+        c2.known = {}
+        sequence_oracle(c2)
+        for v in c2.violations:
+            print(v["what"])
+        return not c2.violations
     print("replay names a broken proof/correspondence obligation: %r" % (r,))
     return False
